@@ -119,6 +119,9 @@ def _decoy(g, a, X):
 def make_gemini(gs, X, decoy=True):
     """(gemini object, affinity as float64 C array or None, label)"""
     base, ovo, a = gs["base"], gs["ovo"], gs.get("a")
+    target_ovo = ovo
+    if gs.get("reconf"):
+        ovo = not ovo  # constructed in the other mode, used once, then switched through the public attribute
     if base == "mmd":
         g, A, _ = make_mmd(a, ovo, X)
         A = np.ascontiguousarray(A, dtype=np.float64)
@@ -131,11 +134,11 @@ def make_gemini(gs, X, decoy=True):
             _decoy(g, a, X)
     else:
         g, A = getattr(G, FDIV[base])(ovo=ovo), None
+    ovo = target_ovo
     label = f"{type(g).__name__}(ovo={ovo}" + (f", {a['form']}:{a['name']}{a['params']})" if a else ")")
     if gs.get("reconf"):
-        # the object was used in another configuration before (other mode, other epsilon) and then re-configured through its
-        # public attributes: nothing of the first use may survive
-        g.ovo = not ovo
+        # the object was constructed and used in another configuration (other mode, other epsilon) and then re-configured
+        # through its public attributes: nothing of the construction or of the first use may survive
         g.epsilon = 1e-3
         rs = np.random.RandomState(7)
         n = len(X)
@@ -146,7 +149,7 @@ def make_gemini(gs, X, decoy=True):
             pass
         g.ovo = ovo
         g.epsilon = 1e-12
-        label += " [evaluated before with ovo flipped and epsilon=1e-3, then re-configured]"
+        label += " [constructed and evaluated with ovo flipped and epsilon=1e-3, then re-configured]"
     return g, A, label
 
 
